@@ -368,6 +368,39 @@ func routing(fn *ssa.Function) (route, bool) {
 			}
 			_, f, ok := core.LoadedField(recv)
 			if !ok {
+				// the backend chosen first and called once: recv = phi(backend A, backend B), the
+				// shape a "pick the backend" helper leaves when it is written out. Each incoming
+				// edge is one route, under the facts that hold on that edge
+				if ph, isPhi := core.Unwrap(recv).(*ssa.Phi); isPhi && len(ph.Edges) == 2 && c.Call.IsInvoke() && (c.Call.Method.Name() == "Get" || c.Call.Method.Name() == "Put") {
+					var hs []hit
+					for ei, e := range ph.Edges {
+						ev := core.Unwrap(e)
+						_, ef, okE := core.LoadedField(ev)
+						if !okE {
+							break
+						}
+						if base, isP := fieldBase(ev).(*ssa.Parameter); !isP || base != fn.Params[0] {
+							break
+						}
+						pred := ph.Block().Preds[ei]
+						var fs []string
+						for _, fc := range core.DomFacts(pred) {
+							fs = append(fs, canonFact(fn, fc))
+						}
+						for si, sb := range pred.Succs {
+							if sb == ph.Block() {
+								for _, fc := range core.EdgeFacts(pred, si) {
+									fs = append(fs, canonFact(fn, fc))
+								}
+							}
+						}
+						sort.Strings(fs)
+						hs = append(hs, hit{ef, strings.Join(fs, " & ")})
+					}
+					if len(hs) == 2 {
+						hits = append(hits, hs...)
+					}
+				}
 				continue
 			}
 			if base, isP := fieldBase(recv).(*ssa.Parameter); !isP || base != fn.Params[0] {
